@@ -229,6 +229,11 @@ def run(ctx):
         spec = relabel_unique(spec)
         do_tree(spec, full_pairs=False)
         out.dist["random_tree"] += 1
+    # trees with clones (several nodes per data_id): count != count_unique matters to Tree.iterator(UNORDERED/RANDOM_ORDER)
+    for _ in range(60 if ctx.thorough else 12):
+        spec = gen.random_spec(ctx.rng, ctx.rng.randrange(4, 12), alphabet, clone_rate=0.6)
+        do_tree(spec, full_pairs=False)
+        out.dist["clone_tree"] += 1
     return out
 
 
@@ -243,6 +248,8 @@ def relabel_unique(spec):
 
 
 CORPUS = [
+    # clones: 'B' three times, 'A' twice (count 7, count_unique 4)
+    [(0, [(1, []), (2, [(1, [])])]), (3, [(0, [(1, [])])])],
     [(0, [(1, [(2, [])]), (3, [])]), (4, [(5, [])])],
     [(0, [(1, []), (2, [(3, [(4, [])])])])],
 ]
